@@ -16,8 +16,12 @@
    (failed) load/preload already put into _waiting_for_load, which returns silently.
    Not modelled: sub-containers (they share the worker; Storage._common_close closes them with the parent), the
    DictCache / CacheFile layer (short_term_cache.clear()), PickleStorage / Hdf5Storage file handles.
-   Tie to the code: transcription on top of the correspondence-checked LTS of Model/CacheThread.v (its definitions are
-   used unchanged: start_op, caller_step, worker_step). *)
+   Tie to the code: correspondence (K), stream "sched-close" of harness/c20_sched.py: programs with close() / __exit__
+   calls run on the real ThreadedStorage + Worker under schedules enforced by gates and are compared with `cl_run`
+   through `check_cl_run` of Model/CacheCloseCheck.v (events of every schedule token, final _loaded / _waiting_for_load /
+   liveness / Worker.exit / _opened / files on disk); Proofs/CacheCloseCheckP.v shows that the replay of the checker is
+   cl_run of the schedule it reports.  The definitions of Model/CacheThread.v are used unchanged (start_op, caller_step,
+   worker_step).  DO NOT change the definitions below without re-running that stream. *)
 From TenpyV Require Import Base.Prelude Model.Cache Model.CacheThread.
 Open Scope Z_scope.
 
